@@ -9,7 +9,7 @@ from ref import rfc9174
 
 ID = 'C07'
 LEVEL = 'exploration'
-RULE = ('legal peer streams built by the reference encoder (contact header, SESS_INIT with 0-3 extension items, transfers with '
+RULE = ('(an endpoint that closes the connection in the middle of a valid stream which asked for nothing of the kind is a violation) ' + 'legal peer streams built by the reference encoder (contact header, SESS_INIT with 0-3 extension items, transfers with '
         'zero-length / boundary / large segments and extension lists, KEEPALIVE incl. as last octet, MSG_REJECT, XFER_ACK/XFER_REFUSE for '
         'the agent\'s own transfers, SESS_TERM) against a real agent in passive or active role; cut patterns: whole, 1-octet dribble, a '
         'single cut at every position, cuts at every message boundary +-1, chooser-random cuts, and all 2^(w-1) patterns over a drawn '
